@@ -315,8 +315,9 @@ def elems(env, seq):
     from .lib import seq_elems, seqset_empty_facts
     ctx = env._it.ctx
     seqset_empty_facts(ctx, seq.sort())
-    env._it.engine.assumed.add('A-seqsets: element set / distinctness of sequences as uninterpreted functions with lemma '
-                               'instances at append, remove, membership and iteration')
+    env._it.engine.assumed.add('A-seqsets: element set / distinctness of sequences (defined as the prefix-set / distinctness folds at full '
+                               'length); instances of the lemmas proved by induction in contracts/lemmas.py (<seqsets>..<seqsets-4>) at '
+                               'append, remove, membership and iteration')
     key = ('elems-link', ctx.keep(seq))
     if key not in ctx.axiom_tags:
         ctx.axiom_tags.add(key)
